@@ -84,7 +84,8 @@ class Mon:
             return 'HOST:%s@%s' % (sig[0], sig[2]), None
 
     def setup(self, kind, itpos, rng, ctxkey=None):
-        ctxkey = ctxkey or rng.choice([('v6-pmsa-sec', 'off'), ('v7-pmsa-r', 'off'), ('v7-vmsa-sec', 'off'), ('v5-pmsa', 'off')])
+        ctxkey = ctxkey or rng.choice([('v6-pmsa-sec', 'off'), ('v7-pmsa-r', 'off'), ('v7-vmsa-sec', 'off'), ('v5-pmsa', 'off'),
+                                        ('v7-vmsa-virt', 'off'), ('v4-pmsa', 'off')])
         ctx = self.ctx(ctxkey)
         desc = self.scen.prepare(ctx, rng, kind, 0, mode=rng.choice(ctx.legal_modes(0)), itpos=itpos)
         return ctx, desc
